@@ -280,6 +280,14 @@ class World:
                     setattr(md.options, e["k"], v)
                 else:
                     md.options[e["k"]] = v
+            elif op == "share_opts":
+                other = self.inst[e["j"]]
+                if idx % 2:
+                    md.set(other.options)
+                else:
+                    md.configure({"options": other.options, "components": {}})
+                if self._has_highlight(md):     # harness bookkeeping: the callback of i counts on i's own fault arm
+                    md.options["highlight"] = make_highlight(self.arms[i])
             elif op == "add_render_rule":
                 md.add_render_rule(e["name"], make_text_rule(self.arms[i]))
             elif op == "enter_reset":
@@ -358,7 +366,7 @@ class World:
         return callable(md.options.get("highlight"))
 
 
-INJECT_BEFORE = {"enable", "disable", "chain_toggle", "configure", "exit_reset", "setopt"}
+INJECT_BEFORE = {"enable", "disable", "chain_toggle", "configure", "exit_reset", "setopt", "share_opts"}
 
 
 def execute(hist_idx):
